@@ -303,4 +303,62 @@ Definition sim_evaluate (arms : list A) (stat : @stats R -> R) (train : list (A 
       Some (map (fun a => (a, match arm_credits N aeqb stat train ns ps decs rews a with [] => None | cr => Some (get_stats N cr) end)) arms)
   end.
 
+(* ---- chunked drivers (the branch of _run_train_test_split that lowers _chunk_size below the number of test rows) -- *)
+(* the chunks [a, b) of n rows for chunk size c *)
+Fixpoint chunk_bounds (fuel c lo n : nat) : list (nat * nat) :=
+  match fuel with
+  | O => []
+  | S f => if Nat.leb n lo then [] else let hi := Nat.min (lo + Nat.max c 1) n in (lo, hi) :: chunk_bounds f c hi n
+  end.
+
+Definition cx_slice (a b : nat) (cx : option ctxs) : option ctxs := option_map (slice a b) cx.
+
+(* the chunk loop over one batch whose first row has position lo in the test set: a new distance dictionary per chunk *)
+Fixpoint sim_chunk_loop (bs : list (sbandit * report)) (cx : option ctxs) (lo : nat) (bounds : list (nat * nat)) (orcs : list (list borc))
+  : list (sbandit * report) :=
+  match bounds with
+  | [] => bs
+  | (a, b) :: t =>
+      sim_chunk_loop (report_all bs (sim_query_all (map fst bs) [] (cx_slice a b cx) (b - a) (lo + a) (lo + b) (hd [] orcs)))
+                     cx lo t (tl orcs)
+  end.
+
+(* after the chunk loop a context-free bandit reports ONE dictionary for the batch: its arm_to_expectation at that point *)
+Definition cf_fix (old new : sbandit * report) : sbandit * report :=
+  match fst new with
+  | SMab m =>
+      if is_contextual (m_imp m) then new else
+      match snd old, snd new with
+      | Some (_, e0), Some (p, _) => (fst new, Some (p, e0 ++ cf_exp_now m))
+      | _, _ => new
+      end
+  | SNbr _ _ _ => new
+  end.
+
+Fixpoint cf_fix_all (olds news : list (sbandit * report)) : list (sbandit * report) :=
+  match olds, news with
+  | o :: olds', n :: news' => cf_fix o n :: cf_fix_all olds' news'
+  | _, _ => []
+  end.
+
+Definition sim_batch_chunked (c : nat) (bs : list (sbandit * report)) (cx : option ctxs) (lo n : nat) (orcs : list (list borc))
+  : list (sbandit * report) :=
+  cf_fix_all bs (sim_chunk_loop bs cx lo (chunk_bounds (S n) c O n) orcs).
+
+(* _offline_test_bandits with chunk size c *)
+Definition sim_offline_chunked (c : nat) (bs : list (sbandit * report)) (test : batch) (orcs : list (list borc)) : list (sbandit * report) :=
+  sim_batch_chunked c bs (b_cx test) O (length (b_ds test)) orcs.
+
+(* _online_test_bandits_chunks with chunk size c; orcs: per batch, per chunk, per bandit (the update oracle is read from the first chunk) *)
+Fixpoint sim_online_chunked (c : nat) (bs : list (sbandit * report)) (lo : nat) (batches : list batch) (orcs : list (list (list borc)))
+  : list (sbandit * report) :=
+  match batches with
+  | [] => bs
+  | bt :: rest =>
+      let n := length (b_ds bt) in
+      let o := hd [] orcs in
+      let q := sim_batch_chunked c bs (b_cx bt) lo n o in
+      sim_online_chunked c (sim_update_all q bt (hd [] o)) (lo + n) rest (tl orcs)
+  end.
+
 End SimRun.
